@@ -35,3 +35,15 @@ Definition tile_path (layout : string) (ext : string) (a : addr) : option text :
   | Some f => Some (join_path (file_key f ext a))
   | None => None
   end.
+
+(* calls through ONE re-used Tile object on a file cache that holds what the history `pre` stored; afterwards the
+   history `post` (fresh tiles) looks at the result *)
+Definition object_case (lay : string) (link : link_mode) (pre : list op) (x y z : Z) (cs : list tcall) (post : list op)
+  : list tobs * list out :=
+  match location_funcs lay with
+  | Some f =>
+    let s0 := fst (file_run f "png" link [] pre) in
+    let (s1, obs) := tcall_exec f "png" link s0 (new_tile x y z) cs in
+    (obs, snd (file_run f "png" link s1 post))
+  | None => ([], [])
+  end.
